@@ -45,7 +45,7 @@ def tiny_layouts():
         _leaf("BOOT", 4, [_fld("SPEED", 0, 2, reset=1), _fld("MODE", 2, 3), _fld("HIDDEN_BITFIELD_005", 5, 27, hidden=True)], preset=1),
         {"name": "ROTKH", "uid": "rotkh", "kind": "group", "width": 64, "decl_width": 64, "subs_width": 64, "reverse": True, "parent": 0, "subs": [4, 5], "rso": False, "fields": [],
          "off": 8, "hidden": False, "preset": [], "preset_ambiguous": False, "fields_width": 0, "comp": "", "compfield": 0, "cond": {"c": 0, "f": 0, "op": "", "k": 0},
-         "altw": [], "hexstr": True, "missing_subs": []},
+         "altw": [32], "hexstr": True, "missing_subs": []},
         _leaf("ROTKH0", 8, parent=3), _leaf("ROTKH1", 12, parent=3),
         _leaf("LOCK", 16, [_fld("VAL", 0, 8), _fld("NVAL", 8, 8, hidden=True), _fld("REST", 16, 16)], comp="inv_lo8"),
         _leaf("RESV", 20, hidden=True, preset=0x80000001),
@@ -123,7 +123,7 @@ def present_int(v, r, digits=0):
     return str(v) if r.random() < 0.3 else f"0x{v:X}"
 
 
-def make_writes(lay, cls, valcls, r, nmax=6):
+def make_writes(lay, cls, valcls, r, nmax=6, edge=False):
     """Concretise a write class on a layout: list of (write for the spec, (register name, bit-field name or None, value presented to the code))."""
     tg = targets(lay)
     pool = tg.get(cls) or []
@@ -135,8 +135,11 @@ def make_writes(lay, cls, valcls, r, nmax=6):
     if not pool:
         return []
     picks = r.sample(pool, k=min(nmax, len(pool)))
+    if edge:          # the first and the last writable register of the area are always among the targets (a parser that stops early, an off-by-one size)
+        key = (lambda t: t[0] if isinstance(t, tuple) else t)
+        picks = [min(pool, key=key), max(pool, key=key)] + [t for t in picks if t not in (min(pool, key=key), max(pool, key=key))]
     used_regs, res = set(), []
-    for t in picks:
+    for pos, t in enumerate(picks):
         ri = t[0] if isinstance(t, tuple) else t
         reg = lay["regs"][ri - 1]
         fam = reg["parent"] or ri
@@ -169,21 +172,24 @@ def make_writes(lay, cls, valcls, r, nmax=6):
             fl = reg["fields"][fi - 1]
             nv = fl.get("name_value", {})
             stored = None
-            for _ in range(8):
+            preset_f = (A.int_of(reg["preset"]) >> fl["off"]) & ((1 << fl["width"]) - 1)
+            for attempt in range(8):
                 vc = valcls if valcls != "mix" else r.choice(VALUE_CLASSES)
-                cand = value_of(vc, fl["width"], r)
-                # a value whose enum name also names an earlier value is written back under that earlier value (data defect reported by the
-                # Layout clause EnumNamesUnique): not generated
-                if cand in fl["enums"] and nv.get(str(fl["enums"][cand]), cand) != cand:
-                    valcls = "mix" if valcls != "mix" else valcls
-                    continue
-                stored = cand
+                if edge and pos < 2 and attempt == 0:
+                    vc = "zero" if preset_f == (1 << fl["width"]) - 1 else "ones"        # an edge target always leaves its preset
+                stored = value_of(vc, fl["width"], r)
+                # values that share their enum name with an earlier value must survive the configuration round trip as well: half of the
+                # writes to such a bit-field use one of them
+                dups = [val for val, name in fl["enums"].items() if nv.get(str(name), val) != val and val < (1 << fl["width"])]
+                if dups and not (edge and pos < 2) and r.random() < 0.5:
+                    stored = r.choice(sorted(dups))
                 break
             if stored is None:
                 continue
             v = stored << fl["shr"]
             pv = present_int(v, r)
-            if not fl["shr"] and stored in fl["enums"] and r.random() < 0.5:
+            # an enum name shared by several values stands for the first of them: a later value is presented as a number
+            if not fl["shr"] and stored in fl["enums"] and nv.get(str(fl["enums"][stored]), stored) == stored and r.random() < 0.5:
                 pv = fl["enums"][stored]
             elif isinstance(pv, str) and pv in nv:
                 pv = v          # a string that is also an enum NAME of this bit-field means that enum, not the number: present the number as a number
@@ -371,7 +377,7 @@ class Runner:
             self.ev_post(ev)
             return ev
         if a == "SetValues":
-            writes = make_writes(lay, s.get("cls", "field"), s.get("val", "mix"), r, s.get("n", 6))
+            writes = make_writes(lay, s.get("cls", "field"), s.get("val", "mix"), r, s.get("n", 6), s.get("edge", False))
             ev["w"] = [w for w, _ in writes]
             ev["shown"] = [list(x) for _, x in writes]
             try:
@@ -520,17 +526,17 @@ def run_trace(ad, lay, sched, r, tid, lay_ref):
 
 SCHED_TEMPLATE = [{"a": "NewObject"}, {"a": "Template"}, {"a": "LoadConfig"}, {"a": "Export"}, {"a": "Parse"}, {"a": "Export"}, {"a": "GetConfig", "check": True}, {"a": "LoadConfig"},
                   {"a": "Export"}]
-SCHED_VALUES = [{"a": "NewObject"}, {"a": "SetValues", "cls": "field", "val": "mix", "n": 8}, {"a": "SetValues", "cls": "compfield", "val": "mix", "n": 4},
+SCHED_VALUES = [{"a": "NewObject"}, {"a": "SetValues", "cls": "field", "val": "rnd", "n": 8, "edge": True}, {"a": "SetValues", "cls": "compfield", "val": "mix", "n": 4},
                 {"a": "Export", "seal": True}, {"a": "Parse"}, {"a": "Export"}, {"a": "GetConfig"}, {"a": "LoadConfig"}, {"a": "Export"},
                 {"a": "SetValues", "cls": "group", "val": "rnd", "n": 3}, {"a": "SetValues", "cls": "reg", "val": "mix", "n": 4}, {"a": "Export"}, {"a": "Parse"}, {"a": "Export"},
                 {"a": "SetValues", "cls": "rotkh", "mode": "bytes"}, {"a": "Export"},
                 {"a": "NewObject"}, {"a": "Export"}, {"a": "Template"}, {"a": "LoadConfig"}, {"a": "Export"}]
 # areas whose database content is identical to an area that runs the full schedules (alias families, unchanged revisions)
-SCHED_ALIAS = [{"a": "NewObject"}, {"a": "SetValues", "cls": "field", "val": "mix", "n": 4}, {"a": "Export"}, {"a": "Parse"}, {"a": "Export"}, {"a": "NewObject"}, {"a": "Export"}]
+SCHED_ALIAS = [{"a": "NewObject"}, {"a": "SetValues", "cls": "field", "val": "rnd", "n": 4, "edge": True}, {"a": "Export"}, {"a": "Parse"}, {"a": "Export"}, {"a": "NewObject"}, {"a": "Export"}]
 SCHED_ALIAS_NOBIN = [{"a": "NewObject"}]
 # XMCD objects deep-copy their register files (and with them the device database) on every access: short schedules in the quick tier
 SCHED_TEMPLATE_SHORT = [{"a": "NewObject"}, {"a": "Template"}, {"a": "LoadConfig"}, {"a": "Export"}, {"a": "Parse"}, {"a": "Export"}]
-SCHED_VALUES_SHORT = [{"a": "NewObject"}, {"a": "SetValues", "cls": "field", "val": "mix", "n": 8}, {"a": "SetValues", "cls": "group", "val": "rnd", "n": 4}, {"a": "Export"}, {"a": "Parse"}, {"a": "Export"}, {"a": "GetConfig", "check": True},
+SCHED_VALUES_SHORT = [{"a": "NewObject"}, {"a": "SetValues", "cls": "field", "val": "rnd", "n": 8, "edge": True}, {"a": "SetValues", "cls": "group", "val": "rnd", "n": 4}, {"a": "Export"}, {"a": "Parse"}, {"a": "Export"}, {"a": "GetConfig", "check": True},
                       {"a": "LoadConfig"}, {"a": "Export"}, {"a": "NewObject"}, {"a": "Export"}]
 SLOW_KINDS = ("xmcd", "fuses")
 # thorough tier, class representatives: every value class of the boundary menu on fresh seeded targets, each followed by both round trips
@@ -730,7 +736,10 @@ def run(tier):
     mc = tlc.mc(SPEC, "CfgAreaMC", "CfgAreaMC.cfg", env={"LAYOUT_FILE": tiny_file, "MC_LEVEL": 3, "MENU": "small" if tier == "quick" else "full"}, heap="8g", timeout=900,
                 require_actions=REQ_ACTIONS)
     v.add_mc(mc)
-    say(f"[C12] MC done {v.timer.s()}s: {mc.distinct} states, {mc.generated} transitions")
+    if tier != "quick":
+        mc2 = tlc.mc(SPEC, "CfgAreaMC", "CfgAreaMC.cfg", env={"LAYOUT_FILE": tiny_file, "MC_LEVEL": 4, "MENU": "small"}, heap="8g", timeout=1500, require_actions=REQ_ACTIONS)
+        v.add_mc(mc2)
+    say(f"[C12] MC done {v.timer.s()}s: {v.cov['states']} states, {v.cov['transitions']} transitions")
 
     # ---- GEN: schedules
     scheds = gen_schedules(v, tiny_file, 24 if tier == "quick" else 120, 8 if tier == "quick" else 10)
@@ -772,7 +781,7 @@ def run(tier):
             sl = [("template", SCHED_TEMPLATE_SHORT), ("values", SCHED_VALUES_SHORT)] if short else [("template", SCHED_TEMPLATE), ("values", SCHED_VALUES)]
             pick = rng(PROP, "subset", json.dumps(ident, sort_keys=True)).random()
             if (tier == "quick" and pick < 0.34 and not short) or (tier != "quick" and is_rep and a["kind"] != "xmcd"):
-                for k in range(2 if tier == "quick" else 6):
+                for k in range(2 if tier == "quick" else 8):
                     sl.append((f"hist{k}", scheds[(idx * 7 + k) % len(scheds)]))
             if tier != "quick" and is_rep:
                 sl.append(("sweep", SCHED_SWEEP_SHORT if a["kind"] == "xmcd" else SCHED_SWEEP))
